@@ -1,5 +1,6 @@
 (* C02 - all text handed out is well-formed UTF-8, whatever bytes arrive. Statements only. *)
-From EC Require Import Base Model.Utf8 Model.Input Spec.Utf8Spec Proofs.Utf8Proofs Proofs.InputProofs.
+From EC Require Import Base Model.Utf8 Model.Input Model.Editor Model.Args Model.History Model.Cli Spec.Utf8Spec Spec.QuoteSpec Spec.ArgSpec Spec.HistSpec
+  Proofs.Utf8Proofs Proofs.InputProofs Proofs.UtilsProofs Proofs.ArgsProofs Proofs.TokenProofs Proofs.TokenValid Proofs.HistoryProofs Proofs.SafetyProofs.
 
 (* (1) every string the accumulator hands out is one well-formed scalar, for every byte sequence *)
 Theorem C02_char_wf : forall bs, bytes bs -> Forall wf_char (snd (run acc0 bs)).
@@ -23,6 +24,32 @@ Print Assumptions C02_resync_after_garbage.
 Theorem C02_decoder_chars : forall bs, bytes bs -> Forall ev_wf (snd (runa ig0 bs)).
 Proof. intros bs H. exact (proj2 (runa_chars_wf bs ig0 H ainv_acc0)). Qed.
 Print Assumptions C02_decoder_chars.
+
+(* (4) through the whole Cli, whatever bytes arrive (malformed, overlong, surrogate, out of range, truncated), writes and prompt
+   changes interleaved, any buffer sizes, any sink behaviour: in every reachable state the edited line - what is echoed, tokenised and
+   recorded - is well-formed UTF-8, and so is every recorded history entry *)
+Theorem C02_cli_inv : forall okf feats cs handler, cmdset_ok cs -> forall cap hcap pr calls, Forall call_ok calls ->
+  let s := fst (api_run okf feats cs handler (snd (api_build okf (cli_init cap hcap pr))) calls) in
+  valid_tok (text (ed s)) /\ exists sp, hbuf (hist s) = enc (ents sp) /\ Forall valid_tok (ents sp).
+Proof.
+  intros okf feats cs handler Hcs cap hcap pr calls Hc.
+  assert (Hi : CliInv (snd (api_build okf (cli_init cap hcap pr)))).
+  { destruct (api_build okf (cli_init cap hcap pr)) as [r s1] eqn:E. cbn [snd].
+    destruct (ClassProofs.Same_bind _ _ ClassProofs.Same_get (fun s0 => ClassProofs.Same_bind _ _ (ClassProofs.Same_wr okf (prompt s0)) (fun _ => ClassProofs.Same_fl okf)) _ _ _ E) as (a & b & c).
+    eapply CliInv_same; eauto. apply CliInv_init. }
+  pose proof (proj2 (api_run_safe okf feats cs handler Hcs calls _ Hc Hi)) as H. cbn zeta.
+  split; [apply CliInv_text_valid, H|apply CliInv_history_valid, H].
+Qed.
+Print Assumptions C02_cli_inv.
+
+(* (5) what is handed to the application: the tokens of a well-formed line (command name, argument tokens) are well-formed, and the
+   classified arguments carry well-formed option names / values and scalar short options *)
+Theorem C02_tokens_valid : forall line, valid_tok line -> Forall valid_tok (tokens_fun line).
+Proof. exact tokens_fun_valid. Qed.
+Print Assumptions C02_tokens_valid.
+Theorem C02_args_valid : forall ts, Forall valid_tok ts -> exists items, args_of ts = Some items /\ Forall arg_valid items.
+Proof. intros ts H. exists (classify_all false ts). split; [apply args_classified, H|apply classify_all_valid, H]. Qed.
+Print Assumptions C02_args_valid.
 
 Example C02_nonvacuous : snd (run acc0 [0xC0; 0x80; 0xED; 0xA0; 0x80; 0xF5; 0x80; 0xE2; 0x82; 0xE2; 0x82; 0xAC; 0x41]) = [[0xE2; 0x82; 0xAC]; [0x41]].
 Proof. vm_compute. reflexivity. Qed.
